@@ -56,6 +56,28 @@ func c17RunHub(t *testing.T, c *c17Case, deadline time.Duration) (blockedAt int,
 
 	var clients []*TestClient
 	var wg sync.WaitGroup
+	// whatever happens below (also a failing helper of the repository): wake the sleepers,
+	// then say bye on every connection (in parallel: the repository's Close sleeps 100 ms),
+	// so that the hub can be shut down
+	defer func() {
+		close(release)
+		c17Within(10*time.Second, wg.Wait)
+		var cw sync.WaitGroup
+		for _, cl := range clients {
+			cw.Add(1)
+			go func(cl *TestClient) { defer cw.Done(); cl.CloseWithBye() }(cl)
+		}
+		c17Within(10*time.Second, cw.Wait)
+	}()
+	// a new connection that has been welcomed (the repository's NewTestClient fails the test instead)
+	connect := func() (*TestClient, bool) {
+		ctx, cancel := context.WithTimeout(context.Background(), deadline)
+		defer cancel()
+		cl := NewTestClientContext(ctx, t, server, hub)
+		clients = append(clients, cl)
+		msg, err := cl.RunUntilMessage(ctx)
+		return cl, err == nil && msg != nil && msg.Type == "welcome"
+	}
 	post := func(good bool) chan int {
 		res := make(chan int, 1)
 		wg.Add(1)
@@ -104,16 +126,25 @@ func c17RunHub(t *testing.T, c *c17Case, deadline time.Duration) (blockedAt int,
 		case "hsleep":
 			switch o.Act % 3 {
 			case 0:
-				cl := NewTestClient(t, server, hub)
-				clients = append(clients, cl)
+				cl, ok := connect()
+				if !ok {
+					blocked("a new connection was not welcomed: the connection")
+					break
+				}
 				cl.SendHelloResume("this-is-invalid") // nolint
 			case 1:
-				cl := NewTestClient(t, server, hub)
-				clients = append(clients, cl)
+				cl, ok := connect()
+				if !ok {
+					blocked("a new connection was not welcomed: the connection")
+					break
+				}
 				cl.SendHelloParams("", HelloVersionV1, "internal", nil, ClientTypeInternalAuthParams{ // nolint
 					Random: newRandomString(48), Token: "this-is-not-the-token", Backend: server.URL})
 			case 2:
 				post(false)
+			}
+			if blockedAt >= 0 {
+				break
 			}
 			if !waitEntered() {
 				blocked("the failed attempt did not get to its own delay: the request")
@@ -129,8 +160,11 @@ func c17RunHub(t *testing.T, c *c17Case, deadline time.Duration) (blockedAt int,
 					blocked("a correctly signed room API request was not answered: the request")
 				}
 			default:
-				cl := NewTestClient(t, server, hub)
-				clients = append(clients, cl)
+				cl, ok := connect()
+				if !ok {
+					blocked("a new connection was not welcomed: the connection")
+					break
+				}
 				cl.SendHelloInternal() // nolint
 				ctx, cancel := context.WithTimeout(context.Background(), deadline)
 				msg, err := cl.RunUntilMessage(ctx)
@@ -144,15 +178,6 @@ func c17RunHub(t *testing.T, c *c17Case, deadline time.Duration) (blockedAt int,
 			break
 		}
 	}
-	close(release)
-	c17Within(10*time.Second, wg.Wait)
-	// close all connections (in parallel: the repository's Close sleeps 100 ms)
-	var cw sync.WaitGroup
-	for _, cl := range clients {
-		cw.Add(1)
-		go func(cl *TestClient) { defer cw.Done(); cl.CloseWithBye() }(cl)
-	}
-	cw.Wait()
 	return
 }
 
